@@ -66,7 +66,9 @@ let do_layout b t =
   List.iter (show_leaf b) c.leaves;
   let s = sysv_layout t in
   Buffer.add_string b (Printf.sprintf " | L %d %d" (int_of_z s.sv_size) (int_of_z s.sv_align));
-  List.iter (show_leaf b) s.sv_leaves
+  List.iter (show_leaf b) s.sv_leaves;
+  (* is the declaration inside the quantifier of layout_eq_sysv? *)
+  Buffer.add_string b (if wf_ty t then " | wf" else " | not-wf")
 
 (* classification: "K <nl>,<nd> <nl>,<nd> ... | <decl>"  ->
    "K ret=<r> args=<a>;<a>... | ret=<r> args=<a>;<a>..."   (c2mir model | SysV model)
